@@ -386,8 +386,24 @@ def decorate(rng, lines, how):
     return text
 
 
+FMT1 = 'AAAA:  DDDDDDDD DDDDDDDD DDDDDDDD DDDDDDDD  <CCCCCCCCCCCCCCCC>'
+FMT2 = 'DD DD DD DD DD DD DD DD DD DD DD DD DD DD DD DD CCCCCCCCCCCCCCCC'
+
+
+def detect(text):
+    """the bytes of a dump file as the property text describes them: the first of the two supported formats that yields data"""
+    import pel.hexdump as hd
+    lines = py_translate(text).split("\n")
+    lines = [x + "\n" for x in lines[:-1]] + ([lines[-1]] if lines[-1] else [])
+    for f in (FMT1, FMT2):
+        d = bytes(hd.parse(lines, f))
+        if d:
+            return d
+    return b""
+
+
 def check_file(run, model, setup, tmpdir, text, tag, raw=None, fmt=None):
-    """raw = the bytes the file is a rendering of (then: file result must equal the raw-bytes result)"""
+    """raw = the bytes the file is a rendering of (then: the file's report must equal the raw bytes' report)"""
     path = write_text(tmpdir, "dump_%d.txt" % (run.evaluations % 7), text)
     run.evaluations += 1
     run.count(tag)
@@ -409,6 +425,13 @@ def check_file(run, model, setup, tmpdir, text, tag, raw=None, fmt=None):
                                theorem="C17_file%s" % fmt, **setup.ref()))
         elif got.count("Trace") >= 1:
             run.nontriv((setup.name, "file", text))
+    data = bytes(raw) if raw is not None else detect(text)
+    what = prop_dump(setup, data, got) if prop_ok else None
+    if what is not None:
+        prop_ok = False
+        run.violation("dump:" + what[0], what[1] + " (through a dump file, %s)" % tag,
+                      dict(kind="S", fn="dump_file", file_text=text, input_hex=data.hex(), actual=got, case=tag,
+                           expected=compose(setup, py_split(data)[1]) if data else [], theorem="C17_compose / C17_order", **setup.ref()))
     setup.pending_files.append((text, tag, got, prop_ok))
     setup.pending_files_bytes += len(text)
     if len(setup.pending_files) >= BATCH or setup.pending_files_bytes >= 4 * BATCH_BYTES:
@@ -578,13 +601,13 @@ def run(run, model, proof):
             check_data(run, model, s, (PATTERNS[n % 6] + bytes(rng.randrange(256) for _ in range(48)))[:n], "short-header")
 
         # ---- layouts from the Coq specification ----
-        for i in range(240 if thorough else 24):
+        for i in range(160 if thorough else 24):
             s = pick(i)
             batch = [layout_choices(rng, s, "random" if j % 3 == 0 else "built") for j in range(25)]
             check_layouts(run, model, s, batch, "spec")
 
         # ---- raw bytes ----
-        for i in range(20000 if thorough else 1200):
+        for i in range(13000 if thorough else 1200):
             s = pick(i, 6)
             style = ("spliced", "alphabet", "buffers", "overlap")[i % 4]
             check_data(run, model, s, gen_raw(rng, s, style), style)
